@@ -32,8 +32,13 @@ func TestVerif_C43(t *testing.T) {
 		vh.Inconclusive(t, "start server: %v", err)
 	}
 	defer env.srv.Stop()
+	c43RunPinned(t, env)
 	vh.Check(t, "resolve", 220, 700, func(rt *rapid.T) {
-		c43Case(rt, env, rec)
+		if rapid.Bool().Draw(rt, "accumulate") {
+			c43AccumCase(rt, env, rec)
+		} else {
+			c43Case(rt, env, rec)
+		}
 	})
 }
 
@@ -47,16 +52,59 @@ type c43Tab struct {
 	cols               []string
 	idxKind            mKind
 
-	cur   *vsql.Table     // expected current rows
-	confs []vsql.Conflict // expected remaining conflicts (only Key is used after the merge)
+	cur   *vsql.Table // expected current rows
+	confs []c43Entry  // expected remaining conflicts
+}
+
+// c43Entry is one unresolved conflict: the key, and the base / their versions of the merge that
+// produced it (several merges may have left conflicts in one table). root is the commit hash of
+// that merge's right side ("" when not needed: a single merge), as shown in from_root_ish.
+type c43Entry struct {
+	Key          string
+	base, theirs *mSide
+	root         string
+}
+
+func (tb *c43Tab) entriesOf(confs []vsql.Conflict, base, theirs *mSide, root string) []c43Entry {
+	out := make([]c43Entry, 0, len(confs))
+	for _, cf := range confs {
+		out = append(out, c43Entry{Key: cf.Key, base: base, theirs: theirs, root: root})
+	}
+	return out
 }
 
 func (tb *c43Tab) confQuery() string {
 	return mConflictQuery(tb.name, mNames(tb.base.Cols), tb.cols, mNames(tb.theirs.Cols))
 }
 
+// expConfRows: base_* from the entry's base table, our_* from the current table row, their_* from
+// the entry's right-hand table.
 func (tb *c43Tab) expConfRows() []string {
-	return mConflictDisplay(tb.confs, tb.base, tb.theirs, tb.cur)
+	out := make([]string, 0, len(tb.confs))
+	for _, e := range tb.confs {
+		d := vsql.Conflict{Key: e.Key}
+		if r, ok := e.base.T.Rows[e.Key]; ok {
+			d.Base = r
+		}
+		if r, ok := tb.cur.Rows[e.Key]; ok {
+			d.Ours = r
+		}
+		if r, ok := e.theirs.T.Rows[e.Key]; ok {
+			d.Theirs = r
+		}
+		out = append(out, mConflictRow(d, len(e.base.Cols), len(tb.cur.Cols), len(e.theirs.Cols)))
+	}
+	sort.Strings(out)
+	return out
+}
+
+// entryPred addresses one conflict row of dolt_conflicts_<t>.
+func (tb *c43Tab) entryPred(e c43Entry) string {
+	p := tb.keyPred(e.Key, "c")
+	if e.root != "" {
+		p += " AND from_root_ish = '" + e.root + "'"
+	}
+	return p
 }
 
 // theirsInMerged maps their version of key k into the merged column set (nil when absent); a
@@ -110,10 +158,10 @@ func (tb *c43Tab) setCur(k string, r vsql.Row) {
 	}
 }
 
-func (tb *c43Tab) dropConf(k string) {
-	var keep []vsql.Conflict
+func (tb *c43Tab) dropConf(e c43Entry) {
+	var keep []c43Entry
 	for _, c := range tb.confs {
-		if c.Key != k {
+		if c.Key != e.Key || c.root != e.root {
 			keep = append(keep, c)
 		}
 	}
@@ -209,7 +257,7 @@ func c43Case(rt *rapid.T, env *mEnv, rec *vh.Recorder) {
 		delMod, anyConf = 0, 0
 		for _, tb := range tabs {
 			e := mModelMerge(tb.base, tb.ours, tb.theirs, tb.sc, tb.oursChanged)
-			tb.cur, tb.confs = e.T, e.Confs
+			tb.cur, tb.confs = e.T, tb.entriesOf(e.Confs, tb.base, tb.theirs, "")
 			for _, cf := range e.Confs {
 				anyConf++
 				if cf.Base != nil && (cf.Ours == nil || cf.Theirs == nil) {
@@ -334,7 +382,7 @@ func c43Case(rt *rapid.T, env *mEnv, rec *vh.Recorder) {
 		parts = append(parts, fmt.Sprintf("%s; base=%s; ours: %s; theirs: %s", tb.sp.create(tb.name), mShow(tb.base.T), strings.Join(tb.ours.Ops, "; "), strings.Join(tb.theirs.Ops, "; ")))
 	}
 	desc := strings.Join(parts, " || ") + " || plan: " + strings.Join(log, "; ")
-	cl := []string{"mode=" + mode.String(), fmt.Sprintf("tables=%d", nt), fmt.Sprintf("conflicted_tables=%d", len(conflicted))}
+	cl := []string{"flavour=single_merge", "mode=" + mode.String(), fmt.Sprintf("tables=%d", nt), fmt.Sprintf("conflicted_tables=%d", len(conflicted))}
 	for _, stp := range plan {
 		cl = append(cl, "strategy="+stp.strategy)
 	}
@@ -387,15 +435,44 @@ func c43Resolve(rt *rapid.T, c *mCase, tabs []*c43Tab, steps []c43Step, strategy
 	}
 	for _, stp := range steps {
 		tb := tabs[stp.tab]
-		for _, cf := range tb.confs {
-			if strategy == "theirs" {
-				r := tb.inMerged(tb.theirs, cf.Key)
+		perKey := map[string][]c43Entry{}
+		var keys []string
+		for _, e := range tb.confs {
+			if len(perKey[e.Key]) == 0 {
+				keys = append(keys, e.Key)
+			}
+			perKey[e.Key] = append(perKey[e.Key], e)
+		}
+		for _, k := range keys {
+			es := perKey[k]
+			if strategy != "theirs" {
+				if _, ok := tb.cur.Rows[k]; !ok {
+					*absent++
+				}
+				continue
+			}
+			if len(es) == 1 {
+				r := tb.inMerged(es[0].theirs, k)
 				if r == nil {
 					*absent++
 				}
-				tb.setCur(cf.Key, r)
-			} else if _, ok := tb.cur.Rows[cf.Key]; !ok {
-				*absent++
+				tb.setCur(k, r)
+				continue
+			}
+			// the key is in conflict with several merged branches: "theirs" is one of their
+			// versions (which one is not specified); the row must be exactly one of them
+			got := c.se.MustQuery(rt, mSelect(tb.name, tb.cols)+" WHERE "+tb.keyPred(k, "")).Sorted()
+			matched := false
+			for _, e := range es {
+				r := tb.inMerged(e.theirs, k)
+				if (r == nil && len(got) == 0) || (r != nil && len(got) == 1 && got[0] == r.Join()) {
+					tb.setCur(k, r)
+					matched = true
+					break
+				}
+			}
+			if !matched {
+				rt.Fatalf("%s: key %q of %s holds %s, none of the %d merged branches' versions", q, k, tb.name, vsql.Show(got), len(es))
 			}
 		}
 		tb.confs = nil
@@ -407,15 +484,13 @@ func c43Resolve(rt *rapid.T, c *mCase, tabs []*c43Tab, steps []c43Step, strategy
 func c43Manual(rt *rapid.T, c *mCase, tb *c43Tab, absent *int) []string {
 	var log []string
 	se := c.se
-	keys := make([]string, 0, len(tb.confs))
-	for _, cf := range tb.confs {
-		keys = append(keys, cf.Key)
-	}
-	for i, k := range keys {
+	entries := append([]c43Entry(nil), tb.confs...)
+	for i, e := range entries {
+		k := e.Key
 		lb := fmt.Sprintf("manual.%s.%d", tb.name, i)
 		action := rapid.SampledFrom([]string{"keep_ours", "take_theirs", "take_theirs", "take_base", "custom", "update_conflict_table"}).Draw(rt, lb+".action")
 		_, oursThere := tb.cur.Rows[k]
-		theirRow := tb.inMerged(tb.theirs, k)
+		theirRow := tb.inMerged(e.theirs, k)
 		switch action {
 		case "keep_ours":
 			if !oursThere {
@@ -428,7 +503,7 @@ func c43Manual(rt *rapid.T, c *mCase, tb *c43Tab, absent *int) []string {
 			c.run(rt, tb.writeRow(k, theirRow))
 			tb.setCur(k, theirRow)
 		case "take_base":
-			r := tb.inMerged(tb.base, k)
+			r := tb.inMerged(e.base, k)
 			if r == nil {
 				*absent++
 			}
@@ -447,7 +522,7 @@ func c43Manual(rt *rapid.T, c *mCase, tb *c43Tab, absent *int) []string {
 			var cands []int
 			if oursThere && theirRow != nil {
 				for j := tb.sp.NPK; j < len(tb.cols); j++ {
-					if tb.theirs.colIdx(tb.cols[j]) >= 0 && !(theirRow[j] == mNull && tb.merged.Cols[j].NotNull) {
+					if e.theirs.colIdx(tb.cols[j]) >= 0 && !(theirRow[j] == mNull && tb.merged.Cols[j].NotNull) {
 						cands = append(cands, j)
 					}
 				}
@@ -460,7 +535,7 @@ func c43Manual(rt *rapid.T, c *mCase, tb *c43Tab, absent *int) []string {
 				break
 			}
 			j := cands[rapid.IntRange(0, len(cands)-1).Draw(rt, lb+".col")]
-			c.run(rt, fmt.Sprintf("UPDATE dolt_conflicts_%s SET our_%s = their_%s WHERE %s", tb.name, tb.cols[j], tb.cols[j], tb.keyPred(k, "c")))
+			c.run(rt, fmt.Sprintf("UPDATE dolt_conflicts_%s SET our_%s = their_%s WHERE %s", tb.name, tb.cols[j], tb.cols[j], tb.entryPred(e)))
 			r := tb.cur.Rows[k].Clone()
 			r[j] = theirRow[j]
 			tb.setCur(k, r)
@@ -471,15 +546,15 @@ func c43Manual(rt *rapid.T, c *mCase, tb *c43Tab, absent *int) []string {
 		case 0:
 			log = append(log, "keep conflict")
 		case 1:
-			id, ok := se.Scalar(rt, fmt.Sprintf("SELECT dolt_conflict_id FROM dolt_conflicts_%s WHERE %s", tb.name, tb.keyPred(k, "c")))
+			id, ok := se.Scalar(rt, fmt.Sprintf("SELECT dolt_conflict_id FROM dolt_conflicts_%s WHERE %s", tb.name, tb.entryPred(e)))
 			if !ok {
 				rt.Fatalf("conflict of %s key %q not listed any more", tb.name, k)
 			}
 			c.run(rt, fmt.Sprintf("DELETE FROM dolt_conflicts_%s WHERE dolt_conflict_id = '%s'", tb.name, id))
-			tb.dropConf(k)
+			tb.dropConf(e)
 		default:
-			c.run(rt, fmt.Sprintf("DELETE FROM dolt_conflicts_%s WHERE %s", tb.name, tb.keyPred(k, "c")))
-			tb.dropConf(k)
+			c.run(rt, fmt.Sprintf("DELETE FROM dolt_conflicts_%s WHERE %s", tb.name, tb.entryPred(e)))
+			tb.dropConf(e)
 		}
 	}
 	if len(tb.confs) > 0 && rapid.Bool().Draw(rt, "manual."+tb.name+".clearall") {
@@ -488,4 +563,263 @@ func c43Manual(rt *rapid.T, c *mCase, tb *c43Tab, absent *int) []string {
 		log = append(log, "delete all conflicts of "+tb.name)
 	}
 	return log
+}
+
+// c43AccumCase: conflicts accumulate over several merges before they are resolved. One line of
+// history (ours) and 2-3 feature branches, each cut either from the common base (siblings: same
+// merge base, different right-hand commits) or from the previous feature's head (different merge
+// bases), are merged one after the other into a work branch; conflicted merges are committed with
+// their conflicts (@@dolt_allow_commit_conflicts, --force) so that the conflict table holds rows of
+// several merges at once, each with the base / their version of its own merge. Compared with the
+// model after every merge, then resolved like a single merge.
+func c43AccumCase(rt *rapid.T, env *mEnv, rec *vh.Recorder) {
+	nt := rapid.SampledFrom([]int{1, 1, 2}).Draw(rt, "ntables")
+	nf := rapid.SampledFrom([]int{2, 2, 3}).Draw(rt, "nfeatures")
+	mode := mergeMode(rapid.IntRange(0, 1).Draw(rt, "mode"))
+	c := env.newCase(rt)
+	defer c.close()
+	se := c.se
+	c.checkoutNew(rt, "base", "")
+	var tabs []*c43Tab
+	for i := 0; i < nt; i++ {
+		lb := fmt.Sprintf("t%d", i+1)
+		sp := mGenSpec(rt, mSpecOpts{keyMaxLo: 3, keyMaxHi: 10})
+		tb := &c43Tab{name: lb, sp: sp, base: mNewSide(sp)}
+		c.run(rt, sp.create(lb))
+		for _, st := range tb.base.genBaseRows(rt, 24, sp.KeyMax) {
+			c.run(rt, mInst(st, lb))
+		}
+		tabs = append(tabs, tb)
+	}
+	c.run(rt, "CALL dolt_commit('-A','--allow-empty','-m','base')")
+
+	hop := mHistoryOpts{maxCommits: 2, minOps: 2, maxOps: 7}
+	newOpts := func(tb *c43Tab) mOpOpts {
+		return mOpOpts{keyMax: tb.sp.KeyMax, maxRange: 1, wInsert: 3, wUpdate: 5, wDelete: 3}
+	}
+	var tracks []*mTrack
+	hot := make([]map[string]bool, nt)
+	for i, tb := range tabs {
+		tb.ours = tb.base.clone()
+		tb.merged = tb.ours
+		tb.cols = mNames(tb.ours.Cols)
+		if tb.sp.Index != "" {
+			tb.idxKind = tb.ours.Cols[tb.ours.colIdx(tb.sp.Index)].Kind
+		}
+		tracks = append(tracks, &mTrack{side: tb.ours, tables: []string{tb.name}, op: newOpts(tb)})
+		hot[i] = map[string]bool{}
+	}
+	c.checkoutNew(rt, "b1", "base")
+	mRunHistory(rt, c, "ours", tracks, hop)
+	for i, tb := range tabs {
+		for k := range tb.ours.Touched {
+			hot[i][k] = true
+		}
+	}
+
+	// feature branches
+	type feature struct {
+		name    string
+		stacked bool     // cut from the previous feature's head instead of the common base
+		start   []*mSide // per table: the table at the branch point (= the merge base's table)
+		sides   []*mSide
+		root    string
+	}
+	var feats []*feature
+	for fi := 0; fi < nf; fi++ {
+		f := &feature{name: fmt.Sprintf("f%d", fi+1)}
+		from := "base"
+		if fi > 0 && rapid.IntRange(0, 2).Draw(rt, fmt.Sprintf("f%d.stacked", fi+1)) == 2 {
+			f.stacked = true
+			from = feats[fi-1].name
+		}
+		var ftracks []*mTrack
+		for i, tb := range tabs {
+			start := tb.base
+			if f.stacked {
+				start = feats[fi-1].sides[i]
+			}
+			side := start.clone()
+			f.start, f.sides = append(f.start, start), append(f.sides, side)
+			opo := newOpts(tb)
+			ks := make([]string, 0, len(hot[i]))
+			for k := range hot[i] {
+				ks = append(ks, k)
+			}
+			sort.Strings(ks)
+			opo.hot, opo.hotPct, opo.other = ks, 7, tb.ours
+			ftracks = append(ftracks, &mTrack{side: side, tables: []string{tb.name}, op: opo})
+		}
+		c.checkoutNew(rt, f.name, from)
+		mRunHistory(rt, c, f.name, ftracks, hop)
+		for i := range tabs {
+			for k := range f.sides[i].Touched {
+				hot[i][k] = true
+			}
+		}
+		f.root, _ = se.Scalar(rt, fmt.Sprintf("SELECT hashof('%s')", c.pfx+f.name))
+		feats = append(feats, f)
+	}
+	for i, tb := range tabs {
+		tb.theirs = feats[0].sides[i] // column set of "theirs" (no schema changes here)
+		tb.cur = tb.ours.T.Clone()
+	}
+
+	// merge them in sequence
+	c.checkoutNew(rt, "m1", "b1")
+	if mode == modeTxn {
+		c.run(rt, "SET autocommit = 0")
+	}
+	c.run(rt, "SET @@dolt_allow_commit_conflicts = 1")
+	merging := func() bool {
+		v, ok := se.Scalar(rt, "SELECT is_merging FROM dolt_merge_status")
+		return ok && (v == "1" || v == "true")
+	}
+	delMod, anyConf, maxRoots, siblingsTogether := 0, 0, 0, false
+	for fi, f := range feats {
+		old := 0
+		newConf := 0
+		for i, tb := range tabs {
+			old += len(tb.confs)
+			exp, confs := vsql.Merge3(f.start[i].T, tb.cur, f.sides[i].T)
+			tb.cur = exp
+			tb.confs = append(tb.confs, tb.entriesOf(confs, f.start[i], f.sides[i], f.root)...)
+			newConf += len(confs)
+			for _, cf := range confs {
+				anyConf++
+				if cf.Base != nil && (cf.Ours == nil || cf.Theirs == nil) {
+					delMod++
+				}
+			}
+		}
+		q := fmt.Sprintf("CALL dolt_merge('%s')", c.pfx+f.name)
+		if old > 0 {
+			// a clean merge commits itself, and a commit without --force is refused while a table
+			// still carries conflicts ("the table(s) .. are in conflict"): merge without committing,
+			// the harness commits with --force below
+			q = fmt.Sprintf("CALL dolt_merge('--no-commit','%s')", c.pfx+f.name)
+		}
+		rt.Logf("SQL: %s", q)
+		res, err := se.Query(q)
+		if err != nil {
+			rt.Fatalf("%s (merge %d of %d) failed: %v", q, fi+1, nf, err)
+		}
+		flag := res.Data[0][2]
+		if old == 0 && (flag != "0") != (newConf > 0) {
+			rt.Fatalf("%s: conflicts flag %s, model has %d new conflicts", q, flag, newConf)
+		}
+		if newConf > 0 && flag == "0" {
+			rt.Fatalf("%s: conflicts flag 0, model has %d new conflicts", q, newConf)
+		}
+		c43CheckAll(rt, se, fmt.Sprintf("after merge %d (%s)", fi+1, f.name), tabs)
+		for _, tb := range tabs {
+			roots := map[string]bool{}
+			sib := map[*mSide]map[string]bool{}
+			for _, e := range tb.confs {
+				roots[e.root] = true
+				if sib[e.base] == nil {
+					sib[e.base] = map[string]bool{}
+				}
+				sib[e.base][e.root] = true
+			}
+			if len(roots) > maxRoots {
+				maxRoots = len(roots)
+			}
+			for _, m := range sib {
+				if len(m) > 1 {
+					siblingsTogether = true
+				}
+			}
+		}
+		if fi < nf-1 || rapid.Bool().Draw(rt, "commit_last_merge") {
+			if merging() {
+				c.run(rt, fmt.Sprintf("CALL dolt_commit('-a','--force','--allow-empty','-m','merge %s, conflicts kept')", f.name))
+				c43CheckAll(rt, se, fmt.Sprintf("after committing merge %d with its conflicts", fi+1), tabs)
+			}
+		}
+	}
+
+	// resolution
+	var conflicted []int
+	for i, tb := range tabs {
+		if len(tb.confs) > 0 {
+			conflicted = append(conflicted, i)
+		}
+	}
+	order := rapid.Permutation(conflicted).Draw(rt, "order")
+	absentChosen := 0
+	var log []string
+	var strategies []string
+	for _, ti := range order {
+		tb := tabs[ti]
+		st := rapid.SampledFrom([]string{"ours", "theirs", "manual", "manual", "manual", "leave"}).Draw(rt, fmt.Sprintf("strategy.t%d", ti+1))
+		if st == "theirs" && c43ShapeRepeatedKeyStaleIndex(tb) && vh.OpenFinding("C43", c43FindRepeatedKeyStaleIndex) {
+			rec.Excluded(1)
+			st = "leave"
+		}
+		strategies = append(strategies, st)
+		switch st {
+		case "ours", "theirs":
+			log = append(log, "resolve --"+st+" "+tb.name)
+			c43Resolve(rt, c, tabs, []c43Step{{ti, st}}, st, tb.name, &absentChosen)
+		case "manual":
+			log = append(log, c43Manual(rt, c, tb, &absentChosen)...)
+		default:
+			log = append(log, "leave "+tb.name)
+		}
+		c43CheckAll(rt, se, fmt.Sprintf("after %s of %s", st, tb.name), tabs)
+	}
+	remaining := 0
+	for _, tb := range tabs {
+		remaining += len(tb.confs)
+	}
+	if remaining == 0 {
+		if err := se.Exec("CALL dolt_commit('-A','--allow-empty','-m','resolved')"); err != nil {
+			rt.Fatalf("commit after resolving every conflict failed: %v", err)
+		}
+		c43CheckAll(rt, se, "after committing the resolved state", tabs)
+	} else if mode == modeAllow && merging() {
+		c.run(rt, "CALL dolt_merge('--abort')")
+	}
+
+	var parts []string
+	for i, tb := range tabs {
+		p := fmt.Sprintf("%s; base=%s; ours: %s", tb.sp.create(tb.name), mShow(tb.base.T), strings.Join(tb.ours.Ops, "; "))
+		for _, f := range feats {
+			from := "base"
+			if f.stacked {
+				from = "previous feature"
+			}
+			p += fmt.Sprintf("; %s (from %s): %s", f.name, from, strings.Join(f.sides[i].Ops, "; "))
+		}
+		parts = append(parts, p)
+	}
+	desc := "accumulate: " + strings.Join(parts, " || ") + " || plan: " + strings.Join(log, "; ")
+	cl := []string{"flavour=accumulate", "mode=" + mode.String(), fmt.Sprintf("tables=%d", nt), fmt.Sprintf("features=%d", nf), fmt.Sprintf("conflicted_tables=%d", len(conflicted)), fmt.Sprintf("merges_with_conflicts_at_once=%d", maxRoots)}
+	for _, st := range strategies {
+		cl = append(cl, "strategy="+st)
+	}
+	for _, f := range feats {
+		if f.stacked {
+			cl = append(cl, "stacked_feature")
+		}
+	}
+	if siblingsTogether {
+		cl = append(cl, "sibling_merges_conflicts_at_once")
+	}
+	if delMod > 0 {
+		cl = append(cl, "delete_modify_conflict")
+	}
+	if absentChosen > 0 {
+		cl = append(cl, "chosen_side_absent")
+	}
+	if anyConf == 0 {
+		cl = append(cl, "no_conflict")
+	}
+	if remaining > 0 {
+		cl = append(cl, "conflicts_left_unresolved")
+	} else if anyConf > 0 {
+		cl = append(cl, "fully_resolved_and_committed")
+	}
+	rec.Case(desc, (delMod > 0 && absentChosen > 0) || (maxRoots >= 2 && len(strategies) > 0), cl...)
 }
